@@ -37,6 +37,13 @@ def feasible(assertions, timeout_ms=1500):
     s.add(*assertions)
     t0 = time.time()
     r = _hard_check(s, timeout_ms)
+    if r == z3.unknown:
+        # a short wall-clock budget flips under load (16 busy cores): ask once more with a budget that does not
+        s2 = z3.Solver()
+        s2.set("timeout", timeout_ms * 20)
+        s2.add(*assertions)
+        r = _hard_check(s2, timeout_ms * 20)
+        STATS["feas_retries"] = STATS.get("feas_retries", 0) + 1
     STATS["feas_queries"] += 1
     STATS["feas_s"] += time.time() - t0
     return r != z3.unsat
